@@ -8,6 +8,7 @@ from typing import Dict, List, Tuple
 from harness.lib.core import VERIF, Ctx, lean_lock, run_driver, shrink_ops
 from harness.extract import health as x_health
 from harness.rigs import health as rig
+from harness.rigs import health_game as grig
 
 MANIFEST = {
     "text": "Lean 4 proof over an executable model of one node's health bookkeeping (software actual/visible/fix countdown, "
@@ -24,13 +25,19 @@ MANIFEST = {
             "inventory of every writer of a health attribute regenerated from the source (Gen/Health.lean, obligations C14_gen_*) "
             "+ differential rig R-health (real Node in a Simulation, requests and ticks, state diffed after every operation) "
             "+ an implementation-only oracle for the statement's clauses.",
-    "note": "C14-specific: items are addressed by name (unique names assumed, checked per trace); software install/uninstall, file "
-            "creation/copy/move and the database restore's file replacement are not modelled (the last is exercised by an "
-            "implementation-only scenario).",
+    "note": "C14-specific: items are addressed by name. Deepening round: the item set is dynamic (Model/HealthDyn.lean, "
+            "Props/C14Dyn.lean: application install/uninstall requests, SoftwareManager.install/uninstall, create folder/file "
+            "requests, copy_file, the database restore's file replacement) - structural operations leave surviving items "
+            "untouched and new items start unscanned or inherit the visible value of the same-named file they copy/replace; "
+            "visible = shadow along every trace with installs/uninstalls; responses characterised (C14_resp_*). Where two items of "
+            "one parent share a name (created over a deleted one) the by-name restore operations of the model are not the "
+            "code's first-match semantics: the rig ends the comparison of that trace there (counted) and relies on the "
+            "identity-based implementation oracle. Game layer: PrimaiteGymEnv episodes on shipped and generated scenarios are "
+            "checked by the identity-based oracle (visible changes only with a covering scan, fix timing), not by the model.",
     "technique": "Lean 4 theorems over an executable health model; model tied by regenerated tables and a differential rig",
     "design_ref": "5/C14",
 }
-MODULES = ["PrimaiteModel.Lemmas.HealthEff", "PrimaiteModel.Props.C14", "PrimaiteModel.Props.C14Gen"]
+MODULES = ["PrimaiteModel.Lemmas.HealthEff", "PrimaiteModel.Props.C14", "PrimaiteModel.Props.C14Gen", "PrimaiteModel.Props.C14Dyn"]
 EXE = "drv_c14"
 
 
@@ -66,8 +73,28 @@ def _tokens(line: str) -> List[Tuple[str, str]]:
     return out
 
 
+def regroup(model: List[str], sizes: List[int]) -> List[str]:
+    """one model answer per implementation operation: the last line of the operation's group; a group that is described by
+    several model lines (Python-API composite) answers `ok`; an `ambiguous` anywhere in the group makes the group ambiguous"""
+    out, k = [], 0
+    for n in sizes:
+        g = model[k:k + n]
+        k += n
+        if any(x == "ambiguous" or x == "bad-op" for x in g):
+            out.append("ambiguous" if "ambiguous" in g else "bad-op")
+        elif n == 1:
+            out.append(g[0])
+        else:
+            out.append("ok | " + g[-1].split(" | ", 1)[1])
+    return out
+
+
 def first_diff(impl: List[str], model: List[str]) -> Tuple[int, str, str, str]:
     for i, (a, b) in enumerate(zip(impl, model)):
+        if b == "ambiguous":
+            # by-name restore where two items share a name: the model does not describe the code there (see Model/HealthDyn.lean);
+            # the comparison of this trace ends here (the implementation-only oracle has covered the whole trace)
+            return -1, "", "", ""
         if a != b:
             ta, tb = _tokens(a), _tokens(b)
             for (fa, xa), (fb, xb) in zip(ta, tb):
@@ -118,7 +145,7 @@ def _impl_worker(case: dict):
     try:
         return rig.run_impl(case)
     except Exception as e:  # the machinery (or construction of the scenario) failed, not an operation
-        return ([], [f"setup-raised:{type(e).__name__}:{e}"], [])
+        return ([], [f"setup-raised:{type(e).__name__}:{e}"], [], None)
 
 
 def _run_impl_all(cases: List[dict], procs: int):
@@ -131,9 +158,11 @@ def _run_impl_all(cases: List[dict], procs: int):
 
 
 def _diff_case(case: dict):
-    setup, impl, complaints = _impl_worker(case)
-    out = run_driver(EXE, rig.model_lines(setup, case))
-    model = out[len(setup):]
+    setup, impl, complaints, resolved = _impl_worker(case)
+    if not setup:
+        return False, impl, [], (0, "setup", impl[0] if impl else "?", ""), complaints
+    out = run_driver(EXE, rig.model_lines(setup, case, resolved))
+    model = regroup(out[len(setup):], rig.group_sizes(case, resolved))
     i, field, a, b = first_diff(impl, model)
     return i < 0 and not complaints, impl, model, (i, field, a, b), complaints
 
@@ -150,6 +179,8 @@ def replay(rec: dict) -> bool:
         return not rig.timing_oracle(durs=(r["d"],))
     if r.get("oracle") == "db-restore":
         return not rig.db_restore_oracle()
+    if r.get("oracle") == "game":
+        return False  # episodes are regenerated from the seed; re-run the check with the same VERIF_SEED
     return False
 
 
@@ -177,6 +208,19 @@ def run(ctx: Ctx):
     for k in range(ctx.scale(1500, 12000)):
         cases.append((f"gen:{k}", rig.gen_case(rng, max_ops=ctx.scale(40, 70))))
 
+    # enumerated timelines: a fix that is interrupted / repeated; a folder scan and a node scan in flight together
+    for k, c in enumerate(rig.interrupted_fix_cases(durs=ctx.scale((2, 3, 4), (1, 2, 3, 4, 6)))):
+        cases.append((f"ifix:{k}", c))
+    for k, c in enumerate(rig.overlap_scan_cases(durs=ctx.scale((0, 1, 2, 6), (0, 1, 2, 3, 6)))):
+        cases.append((f"oscan:{k}", c))
+    # dynamic item sets: install / uninstall, create folder / file (also over deleted names), copy; database restore
+    drng = ctx.rng.fork("dyn")
+    for k in range(ctx.scale(500, 5000)):
+        cases.append((f"dyn:{k}", rig.gen_dyn_case(drng, max_ops=ctx.scale(35, 60))))
+    dbrng = ctx.rng.fork("db")
+    for k in range(ctx.scale(60, 600)):
+        cases.append((f"db:{k}", rig.gen_db_case(dbrng, max_ops=ctx.scale(25, 40))))
+
     # nodes of the shipped scenarios (built by PrimaiteGame.from_config; hosts with unique software names only, see F-22)
     srng = ctx.rng.fork("scenario")
     for k in range(ctx.scale(40, 800)):
@@ -192,14 +236,14 @@ def run(ctx: Ctx):
     impl_all = _run_impl_all([c for _, c in cases], procs=ctx.scale(1, min(12, os.cpu_count() or 1)))
     lines_all: List[str] = []
     bounds = []
-    for (name, case), (setup, impl, complaints) in zip(cases, impl_all):
-        lines = rig.model_lines(setup, case) if setup else ["reset"]
+    for (name, case), (setup, impl, complaints, resolved) in zip(cases, impl_all):
+        lines = rig.model_lines(setup, case, resolved) if setup else ["reset"]
         bounds.append((len(lines_all), len(setup), len(lines)))
         lines_all += lines
     model_all = run_driver(EXE, lines_all)
     agree = 0
     nviol = 0
-    for (name, case), (setup, impl, complaints), (st, ns, ln) in zip(cases, impl_all, bounds):
+    for (name, case), (setup, impl, complaints, resolved), (st, ns, ln) in zip(cases, impl_all, bounds):
         ctx.cov["traces_validated_against_impl"] += 1
         if not setup:
             ctx.oblige(f"rig:setup {name}", "correspondence", False, impl[0] if impl else "?")
@@ -207,10 +251,15 @@ def run(ctx: Ctx):
         setup_out = model_all[st:st + ns]
         if any(x != "ok" for x in setup_out):
             raise RuntimeError(f"driver rejected a setup line of {name}: {list(zip(setup, setup_out))[:40]}")
-        model = model_all[st + ns:st + ln]
+        model = regroup(model_all[st + ns:st + ln], rig.group_sizes(case, resolved))
         if any(m == "bad-op" for m in model):
             raise RuntimeError(f"driver rejected an op line of {name}")
-        tags = _events(model, case["ops"])
+        if "ambiguous" in model:
+            ctx.count("trace-comparison-ended-at-restore-among-same-name-items")
+            cut = model.index("ambiguous")
+            model = model[:cut + 1]
+        ctx.count("family:" + case.get("family", name.split(":")[0]))
+        tags = _events([m for m in model if m != "ambiguous"], case["ops"])
         ctx.case(case, bool(tags))
         for t in tags:
             ctx.count("branch:" + t)
@@ -259,6 +308,35 @@ def run(ctx: Ctx):
         ctx.violation({"kind": "oracle", "clause": bq.get("clause", "?"), "d_class": "0" if bq.get("d") == 0 else ">0"},
                       f"timing clause fails on the implementation: {bq['what']} (duration {bq.get('d')})", {"oracle": "timing", **bq})
     ctx.oblige("oracle:timing clauses hold on the implementation", "oracle", not bad, json.dumps(bad[:3], default=str))
+    # game layer: whole episodes through PrimaiteGymEnv on shipped and generated scenarios, identity-based oracle (testing)
+    from harness.lib import scen
+    from harness.gen import scenario as gscen
+    grng = ctx.rng.fork("game")
+    gcounts: Dict[str, int] = {}
+    gbad: List[dict] = []
+    shipped = scen.shipped()
+    episodes = [(n, scen.load_cfg(shipped[n])) for n in ctx.scale(["data_manipulation", "uc7_config"],
+                ["data_manipulation", "uc7_config", "basic_lan_network_example", "multi_lan_internet_network_example"]) if n in shipped]
+    for k in range(ctx.scale(6, 40)):
+        fam = gscen.FAMILIES[k % len(gscen.FAMILIES)]
+        episodes.append((f"generated:{fam}:{k}", gscen.gen_scenario(grng.fork(f"g{k}"), size=1 + k % 2, family=fam)))
+    for name, cfg in episodes:
+        try:
+            gb = grig.run_episode(cfg, grng, ctx.scale(40, 120), gcounts)
+        except Exception as e:  # building / stepping the environment is C01's and C20's business; counted, not judged here
+            ctx.count("game:episode-raised:" + type(e).__name__)
+            continue
+        ctx.count("game:episodes")
+        for c0 in gb:
+            c0["episode"] = name
+        gbad += gb
+    for k, v in gcounts.items():
+        ctx.count(k, v)
+    for c0 in gbad[:4]:
+        ctx.violation({"kind": "oracle", "layer": "game", "clause": c0["clause"]},
+                      f"game layer, episode {c0['episode']} step {c0['t']}: clause {c0['clause']} fails for {c0['item']}: {json.dumps(c0, default=str)[:300]}",
+                      {"oracle": "game", **c0})
+    ctx.oblige("oracle:game-layer episodes keep visible-only-by-scan and fix timing", "oracle", not gbad, json.dumps(gbad[:3], default=str))
     bad_db = rig.db_restore_oracle()
     for bq in bad_db[:3]:
         ctx.violation({"kind": "oracle", "clause": "db-restore"}, bq["what"], {"oracle": "db-restore", **bq})
